@@ -64,3 +64,73 @@ package codec
 //@   opt strings smt
 //@   requires enc != nil && enc.b != nil
 //@   ensures out(enc) == old(out(enc)) + "," && enc.b == old(enc.b)
+
+// ---- strings, member names and framing (C08) -------------------------------------------------------
+// jq(s) is the JSON string literal appendString (the copy of encoding/json's escaper) produces for s.
+//@ spec func jq(s string) string
+//@ func appendString
+//@   opt assumed copy of encoding/json's string escaper: appends the quoted, escaped literal jq(in) or fails on invalid UTF-8
+//@   opt strings smt
+//@   modifies fresh:result0
+//@   ensures result1 == nil ==> string(result0) == old(string(out)) + jq(in)
+
+//@ func (*encoder).addString
+//@   opt strings smt
+//@   requires enc != nil && enc.b != nil
+//@   ensures ok: result == nil ==> out(enc) == old(out(enc)) + jq(unclean)
+//@   ensures err: result != nil ==> out(enc) == old(out(enc))
+//@   ensures enc.b == old(enc.b)
+
+// member names are escaped JSON strings followed by ':'
+//@ func (*encoder).fieldLabel
+//@   opt strings smt
+//@   requires enc != nil && enc.b != nil
+//@   ensures ok: result == nil ==> out(enc) == old(out(enc)) + jq(label) + ":"
+//@   ensures err: result != nil ==> out(enc) == old(out(enc))
+//@   ensures enc.b == old(enc.b)
+
+// Encoding a value only appends to the output (the value tree is walked by mutual recursion through
+// callbacks, which is outside the subset; assumed, used as a frame by the framing contracts below).
+//@ import j5reflect "github.com/pentops/j5/lib/j5reflect"
+//@ func (*encoder).encodeValue
+//@   opt assumed appends the encoding of one value to the output and changes nothing else of the encoder
+//@   opt strings smt
+//@   modifies ghost:bufStr
+//@   ensures hasPrefix(out(enc), old(out(enc))) && enc.b == old(enc.b)
+
+// README "Oneof": an object with "!type" plus exactly the key it names; an unset oneof is {}.
+//@ func (*encoder).encodeOneofBody
+//@   opt strings smt
+//@   requires enc != nil && enc.b != nil
+//@   assert at return#1 empty: out(enc) == old(out(enc)) + "{}"
+//@   assert at return#6 framed: hasPrefix(out(enc), old(out(enc)) + "{" + jq("!type") + ":" + jq(fieldName(prop)) + "," + jq(fieldName(prop)) + ":") && hasSuffix(out(enc), "}")
+
+// A nested encode works on its own fresh buffer (assumed frame; the walk itself is outside the subset).
+//@ func (*Codec).encode
+//@   opt assumed nested encoding writes to a buffer of its own and returns its bytes
+//@   modifies fresh:result0
+
+// README "Any": {"!type": <type name>, "value": <encoded message>}
+//@ func (*encoder).encodeAny
+//@   opt strings smt
+//@   requires enc != nil && enc.b != nil && enc.codec != nil
+//@   assert at return#7 framed: out(enc) == old(out(enc)) + "{" + jq("!type") + ":" + jq(val.TypeName) + "," + jq("value") + ":" + string(jsonData) + "}"
+
+// README "Enum": the short option name as a JSON string
+//@ func (*encoder).encodeEnum
+//@   opt strings smt
+//@   requires enc != nil && enc.b != nil
+//@   ensures err: result != nil ==> out(enc) == old(out(enc))
+
+// README "Scalar Types", per Go value kind handed over by j5reflect (vt is the type-switch binding)
+//@ func (*encoder).encodeScalarField
+//@   opt strings smt
+//@   requires enc != nil && enc.b != nil
+//@   assert at return#2 bool: out(enc) == old(out(enc)) + (vt ? "true" : "false")
+//@   assert at return#3 int32: out(enc) == old(out(enc)) + itoa(vt)
+//@   assert at return#4 int64: out(enc) == old(out(enc)) + "\"" + itoa(vt) + "\""
+//@   assert at return#5 uint32: out(enc) == old(out(enc)) + itoa(vt)
+//@   assert at return#6 uint64: out(enc) == old(out(enc)) + "\"" + itoa(vt) + "\""
+//@   assert at return#7 float32: out(enc) == old(out(enc)) + ftoa(float64(vt), 32)
+//@   assert at return#8 float64: out(enc) == old(out(enc)) + ftoa(vt, 64)
+//@   ensures append: hasPrefix(out(enc), old(out(enc))) && enc.b == old(enc.b)
